@@ -56,7 +56,7 @@ func runOne(c cfg, devs []vrt.Dev, labels bool) *explore.Exec {
 	var calls []*call
 	var final []*common.Beacon
 	var setupErr error
-	s := vrt.Run(vrt.Options{Devs: devs, MaxSteps: 20000, Labels: labels, Watchdog: 10 * time.Second}, func() {
+	s := vrt.Run(vrt.Options{Devs: devs, MaxSteps: 20000, Labels: labels, Watchdog: 60 * time.Second}, func() {
 		ctx := context.Background()
 		base, cleanup, err := fix.NewBackend(ctx, c.Backend, c.Chained)
 		if err != nil {
